@@ -5,6 +5,7 @@ Model of the arc-ordering helpers `utils.short_arc`, `right_to_left`, `arc_inclu
 -/
 import Mathlib.Algebra.Order.Field.Basic
 import Mathlib.Order.Defs.LinearOrder
+import Mathlib.Data.Fin.Basic
 
 namespace GT.Arcs
 
@@ -29,6 +30,18 @@ def arcInclude (pi : K) (t : K × K) (ref : K) : K × K :=
   let s1 := shiftNonneg pi (t.2 - t.1)
   let sref := shiftNonneg pi (ref - t.1)
   if s1 < sref then (t.2, t.1) else t
+
+/-- `utils.circle_angles(center, p)` is `arctan2(p_y − c_y, p_x − c_x)`.  The angle `θ` is
+represented by the pair `(cos θ, sin θ)`: the unit vector from the centre to the point
+(`r` the supplied square root).  What is claimed (`circleAngles_spec`): for `p ≠ center` this is a
+point of the unit circle and `p = center + ρ·(cos θ, sin θ)` with `ρ = |p − center| > 0`; that
+`arctan2` returns the representative of this angle in `(−π, π]` is numpy's contract (checked by
+the oracle), and is the range hypothesis of `right_to_left` / `arc_include`. -/
+def circleAngleCS (r : K → K) (center p : Fin 2 → K) : K × K :=
+  let dx := p 0 - center 0
+  let dy := p 1 - center 1
+  let rho := r (dx * dx + dy * dy)
+  (dx / rho, dy / rho)
 
 /-- congruence modulo `2π` -/
 def CongPi (pi a b : K) : Prop := ∃ k : ℤ, a - b = k * (2 * pi)
